@@ -208,12 +208,13 @@ func (f *fakeInput) Commit(e *pipeline.Event) {
 // repeated commit; the panic is caught and recorded, and the offsets the provider ends up with are read back through the real
 // offsetDB.save / load.
 type fileCommit struct {
-	log   *caseLog
-	pipe  any
-	prov  *fileinput.VerifC07Provider
-	mu    sync.Mutex
-	names map[[2]string]int64 // (source, stream name) -> stream address
-	file  string
+	log    *caseLog
+	pipe   any
+	prov   *fileinput.VerifC07Provider
+	mu     sync.Mutex
+	names  map[[2]string]int64 // (source, stream name) -> stream address
+	file   string
+	closed bool
 }
 
 func newFileCommit(log *caseLog, nsrc int) *fileCommit {
@@ -230,6 +231,13 @@ func newFileCommit(log *caseLog, nsrc int) *fileCommit {
 }
 
 func (f *fileCommit) commit(e *pipeline.Event) {
+	// one forwarded commit = one critical section (provider call + label), so that the labels 118 appear in the order the
+	// provider saw the commits and the labels 119 of finish() describe the provider's state at their place in the trace
+	f.mu.Lock()
+	defer f.mu.Unlock()
+	if f.closed {
+		return // an early-stop case: the trace was taken while processors were still committing
+	}
 	panicked := int64(0)
 	sid := e.VerifStreamID()
 	func() {
@@ -240,9 +248,7 @@ func (f *fileCommit) commit(e *pipeline.Event) {
 		}()
 		f.prov.Commit(e)
 	}()
-	f.mu.Lock()
 	f.names[[2]string{fmt.Sprint(uint64(e.SourceID)), string(e.StreamNameBytes())}] = sid
-	f.mu.Unlock()
 	f.log.add(f.pipe, LFileCommit, sid, e.Offset, int64(e.SourceID), panicked)
 }
 
@@ -250,14 +256,15 @@ func (f *fileCommit) commit(e *pipeline.Event) {
 func (f *fileCommit) finish() {
 	defer os.Remove(f.file)
 	defer os.Remove(f.file + ".tmp")
+	f.mu.Lock()
+	defer f.mu.Unlock()
+	f.closed = true
 	f.prov.Save()
 	table, err := fileinput.VerifC07Load(f.file)
 	if err != nil {
 		f.log.add(f.pipe, LFileOffset, -1, 0, 0, 0)
 		return
 	}
-	f.mu.Lock()
-	defer f.mu.Unlock()
 	for _, j := range table {
 		for _, st := range j.Streams {
 			sid, ok := f.names[[2]string{fmt.Sprint(j.SourceID), st.Name}]
